@@ -167,7 +167,7 @@ def ob_client_framing(k: int, csel: List[int], cutsel: int) -> str:
     return "ok" if (chunks and k > 0) else "ok-trivial"
 
 
-@obligation(funcs=["notifier.NotifyServer.handle_notify"], timeout=(200, 900),
+@obligation(funcs=["notifier.NotifyServer.handle_notify"], timeout=(350, 1200),
             bounds="two senders each announcing one id that arrives in two chunks (split offsets by symbolic selector from "
                    "{1,16,31}), one idle receiver; the order in which the two connection handlers are resumed is a symbolic "
                    "schedule of <=6 steps (then first-ready)")
